@@ -1,4 +1,4 @@
-use emmylua_code_analysis::uri_to_file_path;
+use emmylua_code_analysis::{read_file_with_encoding, uri_to_file_path};
 use lsp_types::{
     DidChangeTextDocumentParams, DidCloseTextDocumentParams, DidOpenTextDocumentParams,
     DidSaveTextDocumentParams,
@@ -192,6 +192,21 @@ pub async fn on_did_close_document(
             context
                 .file_diagnostic()
                 .clear_push_file_diagnostics(uri.clone());
+        }
+    } else if let Some(path) = uri_to_file_path(uri) {
+        // the editor's text is no longer the truth (the client may have discarded unsaved edits):
+        // the document is what its file holds
+        let encoding = analysis.get_emmyrc().workspace.encoding.clone();
+        drop(analysis);
+        let text = read_file_with_encoding(&path, &encoding);
+        let mut mut_analysis = context.analysis().write().await;
+        match text {
+            Some(text) => {
+                mut_analysis.update_file_by_uri(uri, Some(text));
+            }
+            None => {
+                mut_analysis.remove_file_by_uri(uri);
+            }
         }
     }
 
